@@ -806,7 +806,7 @@ pub fn run(ctx: &mut Ctx, rep: &mut Report) {
             "planted",
             "product: element type {f32,u8} x configuration {generic U1,U2,U4,U16,U32,U64; sse2 U16,U32,U48,U64; avx2 U32; dispatcher arms; StripedScores API under each arm; Scores on the unstriped vector} \
              x rows {0..=40,255,256,257,1000 (+64,100,511,2000,5000 thorough)} x background {all -inf, all -5, all 0, descending ramp (all negative), centred ramp, tiny negative ramp | u8: 0, 7, two ramps} \
-             x maximum planted at every column of every row (rows<=40) or of first/last 3 rows + stride sweep, plus duplicated maxima across column halves/rows x threshold menu (below all, planted value and neighbours, background values, above all); matrices of <= 8 rows are probed both in a fresh buffer and in a reused buffer that held 3 more rows before (stale rows must be invisible) and whose padding was filled, and (pipeline-level entry points) declared with fewer valid positions than cells, or with none at all; \
+             x maximum planted at every column of every row (rows<=40) or of first/last 3 rows + stride sweep, plus duplicated maxima across column halves/rows x threshold menu (below all, planted value and neighbours, background values, above all); matrices of <= 8 rows are probed both in a fresh buffer and in a reused buffer that held 3 more rows before (stale rows must be invisible) and whose padding was filled, and (pipeline-level entry points) declared with fewer valid positions than cells, or with none at all; the matrix without rows is also probed with a positive index bound (resize(0, n)), fresh and shrunk from 3 rows; \
              oracle: scalar scan of the cells read back through the public matrix; non-trivial = rows>0; cases distinct by construction",
         );
         run_planted::<f32>(ctx, rep, &mut base, N_BG_F32, peak_f32, thr_f32);
